@@ -36,12 +36,13 @@ from ..overlay import MachineryError
 STATE_FIELDS = ("layer", "role", "tp", "ctrl", "enc", "dec", "req", "push", "mpi", "done")
 
 FULL = {"CtrlPhases": ["open", "openMid", "set", "setMid"], "EncPhases": ["open", "ins"], "DecPhases": [True],
-        "ReqPhases": ["init.mid", "init.blocked", "init.wt", "hdrs", "hdrs.mid", "hdrs.data", "hdrs.blocked",
-                      "trl", "trl.mid", "fin"],
+        "ReqPhases": ["init.mid", "init.blocked", "init.bfin", "init.wt", "hdrs", "hdrs.mid", "hdrs.data", "hdrs.blocked",
+                      "hdrs.bfin", "trl", "trl.mid", "fin"],
         "PushPhases": ["type", "open", "hdrs"]}
 # the sub-lattice whose every (state, class) pair is replayed in the quick tier
-QUICK = {"ctrl": {"none", "open", "set"}, "enc": {"none", "ins"}, "dec": {False, True},
-         "req": {"init", "hdrs", "hdrs.data", "init.blocked", "trl"}, "push": {"none", "open"}}
+QUICK = {"ctrl": {"none", "open", "set"}, "enc": {"none", "open", "ins"}, "dec": {False, True},
+         "req": {"init", "hdrs", "hdrs.data", "init.blocked", "init.bfin", "trl"}, "push": {"none", "open"}}
+BLOCKED = ("init.blocked", "init.bfin", "hdrs.blocked", "hdrs.bfin")
 
 A = None            # aioquic modules (set in run(), inherited by forked workers)
 
@@ -398,6 +399,10 @@ def signature(rec, clause):
         str(pre[k]).lower() if isinstance(pre[k], bool) else pre[k]
         for k in ("ctrl", "enc", "dec", "req", "push", "mpi", "tp", "done"))
     what = o["kind"] + (":0x%x" % o["code"] if o["kind"] == "close" else "")
+    if clause == "model:prefix-state":
+        w = rec["want"]
+        return "%s:%s:wanted %s reached %s" % (head, clause, ",".join("%s=%s" % (k, w[k]) for k in STATE_FIELDS[3:]),
+                                               ",".join("%s=%s" % (k, pre[k]) for k in STATE_FIELDS[3:] if pre[k] != w[k]))
     if clause == "model:outcome":
         # one line per (class, target phase), not per state
         return "%s:%s:%s/%s:%s" % (head, clause, t, rec["cls"]["k"], what)
@@ -440,7 +445,7 @@ class Judge:
         for i, clause in fails:
             n, ref, rec = self.lines[keys[i]]
             if clause == "harness-guard":
-                raise MachineryError("driver left the environment's alphabet or missed the prefix state: %s"
+                raise MachineryError("driver left the environment's alphabet: %s"
                                      % json.dumps(judged_line(rec))[:700])
             sig = signature(rec, clause)
             if clause.startswith("model:"):
@@ -460,6 +465,7 @@ def in_quick_lattice(st):
         return True
     return (all(st[k] in v for k, v in QUICK.items())
             and st["dec"] == (st["enc"] != "none")                          # QPACK streams come in pairs
+            and (st["enc"] == "open") == (st["req"] in BLOCKED)             # blocked sections wait at an open encoder stream
             and (st["role"] == "client" or st["mpi"] == (st["ctrl"] == "set")))
 
 
